@@ -11,21 +11,42 @@ DRV = os.path.join(lib.LEAN, ".lake", "build", "bin", "drv_euler")
 LEAF_IDX = os.path.join(troute.GEN, "index_leaf.txt")
 
 REQUIRED = [
-    "orders_match_header", "order_setOrder", "legal_orders", "setOrder_order", "real_order_eq_model",
+    "orders_match_header", "order_setOrder", "legal_orders", "setOrder_order", "code_injective", "real_order_eq_model",
     "real_angleOrder_eq_model", "real_angleMapping_eq_model", "angleOrder_permutation", "angleMapping_inverts_angleOrder",
-    "toXYZVector_slots", "toXYZVector_setXYZVector", "setXYZVector_toXYZVector", "ctor_layouts", "toXYZVector_ctorXYZLayout", "copy_and_assign",
-    "toM33_raw", "toQuat_raw", "toMatrix44_eq_embed_toMatrix33", "toMatrix33_eq_spec", "toMatrix33_orthonormal_det_one", "toQuat_eq_spec", "toQuat_unit",
+    "toXYZVector_slots", "toXYZVector_setXYZVector", "setXYZVector_toXYZVector", "ctor_layouts", "toXYZVector_ctorXYZLayout",
+    "setOrder_keeps_angles", "copy_and_assign",
+    "toM33_raw", "toM33_raw_toMat", "toQuat_raw", "toMatrix44_eq_embed_toMatrix33", "toMatrix33_eq_spec", "toMatrix33_orthonormal_det_one", "toQuat_eq_spec", "toQuat_unit",
     "toQuat_toMatrix33_eq_toMatrix33", "toMatrix44_XYZ_eq_setEulerAngles",
-    "extract_M44_eq_extract_M33", "extract_Quat_eq", "ctor_matrix_eq_extract", "reorder_ctor_eq",
-    "flip_same_rotation", "simpleXYZRotation_preserves", "simpleXYZRotation_within_pi", "makeNear_preserves_rotation",
-    "makeNear_within_pi", "nearestRotation_preserves_rotation", "nearestRotation_within_pi",
+    "extract_M44_eq_extract_M33", "extract_embed33", "extract_Quat_eq", "ctor_matrix_eq_extract", "reorder_ctor_eq",
+    "flip_same_rotation", "simpleXYZRotation_preserves", "simpleXYZRotation_within", "simpleXYZRotation_within_pi", "makeNear_preserves_rotation",
+    "makeNear_within", "makeNear_within_pi", "nearestRotation_preserves_rotation", "nearestRotation_within", "nearestRotation_within_pi",
     "angleMod_in_range", "angleMod_congruent", "angleMod_driver_instance",
     "extract_toMatrix33_static", "extract_toMatrix33_rotating", "extract_toMatrix33_static_rep", "extract_toMatrix33_rotating_rep",
     "extractEulerXYZ_eq_member", "extractEulerZYX_eq_member",
     "extract_inverts_toMatrix33_partial", "toMatrix33_extract_roundtrip_partial", "extract_inverts_toMatrix44_partial",
     "extract_inverts_toQuat_partial", "extractEulerXYZ_inverts_setEulerAngles", "extractEulerZYX_inverts_builder",
     "extractEuler_inverts_setRotation",
+    # non-vacuity evidence (each hypothesis set has a real-function instance)
+    "nonvacuity_principal", "nonvacuity_real_sin_cos", "nonvacuity_flip_real", "nonvacuity_makeNear", "nonvacuity_float_bound",
+    "nonvacuity_slots_YZX", "nonvacuity_angleMod",
 ]
+
+# Props/C11Round.lean: the property's direction of the round trip (every rotation matrix, all 24 orders), re-ordering constructor,
+# makeNear with a target of another order, scale invariance of the free functions
+REQUIRED_ROUND = [
+    "exM33_eq_core", "toM33_eq_core", "toMatrix33_extract", "toMatrix44_extract", "quatHom_orthonormal", "Quat_toMatrix33_rotation",
+    "toMatrix33_extract_quat", "trig_hsc", "toMatrix33_extract_toMatrix33", "toMatrix33_surjective", "reorder_preserves_rotation",
+    "ctor_matrix_roundtrip", "sqrtOK_real", "trigSpec_real", "toMatrix33_extract_real", "gimbalY_rot", "ident33_rot", "nonvacuity_gimbal",
+    "nonvacuity_reorder",
+    "extractEulerXYZ_eq_member_normalized", "extractEulerZYX_eq_member_normalized", "len3_smul", "len3_eq_zero", "nrm_smul",
+    "normRows3_scaleRows3", "extractEulerXYZ_scale_invariant", "extractEulerZYX_scale_invariant", "normRows3_of_rotation",
+    "extractEulerXYZ_rebuilds_scaled_rotation", "extractEuler_scale_invariant", "nonvacuity_scaled_rotation",
+    "makeNear_other_order", "makeNear_other_order_preserves_rotation", "makeNear_other_order_within", "nonvacuity_makeNear_other_order",
+]
+
+# fixed rational stand-in for the PARAMETER `angleMod` in the Lean-side validation of the emitted text (same function as the
+# Native::q of "angleMod" in harness/sym/sym_c11.cpp)
+ANGLEMOD_STUB = "(fun (x : Rat) => x * ((3 : Rat) / 7) + (1 : Rat) / 5)"
 
 # which residue sections can falsify which theorem (search for a concrete failing input)
 SECTIONS = {
@@ -67,6 +88,27 @@ SECTIONS = {
     "toMatrix33_extract_roundtrip_partial": ["extract-roundtrip", "extract-toMatrix-real", "extract-roundtrip-gimbal"],
     "extract_inverts_toMatrix44_partial": ["extract33-vs-extract44", "extract-roundtrip", "toMatrix44-embed"],
     "extract_inverts_toQuat_partial": ["extract-quat-roundtrip", "toQuat-vs-spec"],
+    "simpleXYZRotation_within": ["simpleXYZRotation-within-pi"], "makeNear_within": ["makeNear-within-pi"], "nearestRotation_within": ["nearestRotation-within-pi"],
+    "extract_embed33": ["extract33-vs-extract44"], "code_injective": ["order"],
+    # Props/C11Round.lean
+    "exM33_eq_core": ["extract-foreign-signedperm", "extract-foreign-quat", "extract-roundtrip", "extract-roundtrip-gimbal", "extract33-vs-extract44"],
+    "toM33_eq_core": ["toMatrix33-vs-spec"],
+    "toMatrix33_extract": ["extract-foreign-signedperm", "extract-foreign-quat", "extract-foreign-product", "extract-foreign-axisangle", "extract-roundtrip-gimbal", "extract-roundtrip", "extract-toMatrix-real"],
+    "toMatrix33_extract_real": ["extract-foreign-signedperm", "extract-foreign-quat", "extract-roundtrip-gimbal", "extract-roundtrip"],
+    "nonvacuity_gimbal": ["extract-foreign-signedperm", "extract-roundtrip-gimbal"],
+    "toMatrix44_extract": ["extract33-vs-extract44", "extract-foreign-signedperm", "toMatrix44-embed"],
+    "toMatrix33_extract_quat": ["extract-quat-roundtrip", "extract-foreign-quat"], "Quat_toMatrix33_rotation": ["extract-foreign-quat", "toQuat-vs-spec"],
+    "toMatrix33_extract_toMatrix33": ["extract-roundtrip", "extract-roundtrip-gimbal", "extract-toMatrix-real"],
+    "toMatrix33_surjective": ["extract-foreign-signedperm", "extract-foreign-quat"],
+    "reorder_preserves_rotation": ["reorder", "reorder-order"], "nonvacuity_reorder": ["reorder"],
+    "ctor_matrix_roundtrip": ["ctor-matrix", "extract-foreign-signedperm", "extract-foreign-quat"],
+    "extractEulerXYZ_eq_member_normalized": ["extractEulerXYZ", "extract33-vs-extract44"], "extractEulerZYX_eq_member_normalized": ["extractEulerZYX", "extract33-vs-extract44"],
+    "extractEulerXYZ_scale_invariant": ["extractEulerXYZ"], "extractEulerZYX_scale_invariant": ["extractEulerZYX"],
+    "extractEulerXYZ_rebuilds_scaled_rotation": ["extractEulerXYZ", "extractEulerZYX", "setEulerAngles"], "nonvacuity_scaled_rotation": ["extractEulerXYZ"],
+    "extractEuler_scale_invariant": ["extractEuler22", "extractEuler33"],
+    "makeNear_other_order": ["makeNear-rotation-other-order", "makeNear-within-pi-other-order", "makeNear-order"],
+    "makeNear_other_order_preserves_rotation": ["makeNear-rotation-other-order", "makeNear-order"],
+    "makeNear_other_order_within": ["makeNear-within-pi-other-order"], "nonvacuity_makeNear_other_order": ["makeNear-rotation-other-order"],
 }
 
 
@@ -75,6 +117,11 @@ def run_residue(chk, binary, n):
     m = re.search(r"RESIDUE evals=(\d+) failures=(\d+) gimbal_exact=(\d+) gimbal_near=(\d+) flip_taken=(\d+) flip_not_taken=(\d+)(.*)", out)
     fails = [l for l in out.split("\n") if l.startswith("RESIDUE-FAIL")]
     return rc, out, m, fails
+
+
+def residue_hits(out):
+    h = re.search(r"^HITS (.*)$", out, re.M)
+    return {k: int(v) for k, _, v in (kv.partition("=") for kv in h.group(1).split())} if h else {}
 
 
 def parse_fail(line):
@@ -89,20 +136,33 @@ def parse_fail(line):
 def residue(chk, rc, out, m, fails):
     ok = rc == 0 and m is not None and int(m.group(2)) == 0
     chk.oblige("residue: builders = spec to 8 eps*|angle|; extract/toMatrix round trip (3x3, 4x4, quaternion, reorder) to 24 eps incl. "
-               "gimbal lock; makeNear/nearestRotation/simpleXYZRotation keep the rotation to 8 eps_float*|angle| and stay within pi; "
+               "gimbal lock; extract on matrices NOT built by toMatrix33 (unit quaternions, the 24 signed-permutation rotations, products of two "
+               "builders, setAxisAngle) to 24 eps + 4 x orthonormality defect; makeNear (target of the same and of another order) / "
+               "nearestRotation/simpleXYZRotation keep the rotation to 8 eps_float*|angle| and stay within pi; "
                "angleMod in [-pi,pi], congruent mod 2pi to single precision; XYZ-layout slot functions exact", "residue", ok)
+    hits = residue_hits(out)
+    need = ["other_order_converted", "other_order_same", "foreign_quat", "foreign_signedperm", "foreign_signedperm_gimbal", "foreign_product", "foreign_axisangle"]
+    hok = bool(hits) and all(hits.get(k, 0) > 0 for k in need) and hits.get("foreign_signedperm") == 2 * 24 * 24
+    chk.oblige("residue reach: makeNear target converted from another order / same order; extract fed unit-quaternion, signed-permutation "
+               "(2 x 24 orders x 24 matrices, a third of them gimbal-locked for the order), two-builder-product and setAxisAngle matrices", "coverage", hok, hits or None)
+    if not hok and ok:
+        chk.fail("residue-reach", "residue:reach", "an input class of the residue harness was never generated", {"hits": hits}, False)
     if m:
         chk.count(int(m.group(1)), int(m.group(1)))
         res = {"evaluations": int(m.group(1)), "middle_angle_exactly_at_gimbal": int(m.group(3)),
                "middle_angle_within_1e-1..1e-15_of_gimbal": int(m.group(4)),
                "nearestRotation_chose_flipped_triple": int(m.group(5)), "nearestRotation_kept_simple_triple": int(m.group(6)),
                "orders": 24, "element_types": ["double", "float"], "oracle": "long double product of elementary rotations about the axes of an independent table"}
+        res["reach"] = hits
         for kv in m.group(7).split():
             k, _, v = kv.partition("=")
             res["worst_" + k] = float(v)
         res["bounds"] = {"setEulerAngles_vs_spec_over_eps": 8, "extractEulerXYZ_angle_err_over_eps_cond": 16, "extractEulerZYX_angle_err_over_eps_cond": 16,
                          "extractEuler2D_angle_err_over_eps": 8, "toMatrix_vs_spec_over_eps_amax": 8, "roundtrip_over_eps": 24, "roundtrip_gimbal_over_eps": 24, "reorder_over_eps": 24,
-                         "makeNear_rotation_over_epsf_amax": 8, "makeNear_excess_over_pi_in_epsf_amax": 4, "angleMod_congruence_over_tol": 1}
+                         "makeNear_rotation_over_epsf_amax": 8, "makeNear_excess_over_pi_in_epsf_amax": 4, "angleMod_congruence_over_tol": 1,
+                         "makeNear_other_order_rotation_over_epsf_amax": 8, "makeNear_other_order_excess_over_pi_in_epsf_amax": 4,
+                         "foreign_quat_over_eps": "24 + 4*defect/eps", "foreign_signedperm_over_eps": 24, "foreign_product_over_eps": "24 + 4*defect/eps",
+                         "foreign_axisangle_over_eps": "24 + 4*defect/eps"}
         chk.residues["C11"] = res
     seen = set()
     for l in fails:
@@ -181,6 +241,49 @@ def anglemod_correspondence(chk, corr, n):
                  {"hits": hits, "tail": res[-500:]}, False)
 
 
+def anglemod_float_all(chk, corr):
+    """T = float: every bit pattern (thorough) / every 61st with a seed-dependent offset (quick), on the C++ side only: |r| <= float(M_PI) and
+    r = x modulo 2 float(M_PI), both EXACT (see harness/corr/c11_corr.cpp)."""
+    stride = 1 if chk.thorough else 61
+    offset = 0 if chk.thorough else chk.seed % 61
+    nth = max(2, min(12, lib.NCPU))
+    rc, out = lib.sh([corr, "anglemod-float-all", str(stride), str(offset), str(nth)], timeout=3000)
+    m = re.search(r"AMALL evals=(\d+) nonfinite=(\d+) failures=(\d+) no_wrap=(\d+) plus_2pi=(\d+) minus_2pi=(\d+) result_at_pm_pi=(\d+)", out)
+    expect = (2 ** 32 - 2 ** 25 + 2) if chk.thorough else 0   # finite floats: all patterns minus the 2^24 inf/NaN patterns of each sign
+    ok = rc == 0 and m is not None and int(m.group(3)) == 0 and int(m.group(4)) > 0 and int(m.group(5)) > 0 and int(m.group(6)) > 0 \
+        and int(m.group(7)) > 0 and (not chk.thorough or int(m.group(1)) >= expect)
+    chk.oblige("correspondence: Euler<float>::angleMod on %s float bit patterns + the neighbours of k*pi_f, |k| <= 4096: |result| <= float(M_PI) "
+               "exactly and result = argument modulo 2*float(M_PI) exactly; every wrap branch and a result of exactly +-pi_f hit"
+               % ("ALL 2^32" if chk.thorough else "every 61st of the 2^32 (offset = seed mod 61)"), "correspondence", ok)
+    if m:
+        chk.count(int(m.group(1)), int(m.group(1)))
+        chk.extra["angleMod_float_exhaustive"] = {"stride": stride, "offset": offset, "finite_arguments": int(m.group(1)), "nonfinite_skipped": int(m.group(2)),
+                                                  "no_wrap": int(m.group(4)), "plus_2pi": int(m.group(5)), "minus_2pi": int(m.group(6)),
+                                                  "results_exactly_pm_pi_f": int(m.group(7)), "exhaustive": bool(chk.thorough)}
+    for l in [l for l in out.split("\n") if l.startswith("AMALL-FAIL")][:3]:
+        chk.fail("correspondence:angleMod-float", "corr:angleMod:float-all",
+                 "Euler<float>::angleMod returns a value outside [-float(M_PI), float(M_PI)] or not congruent to its argument modulo 2*float(M_PI)",
+                 {"line": l, "replay_cmd": ".build/bin/c11_corr anglemod-float-all %d %d 4" % (stride, offset)}, True)
+    if not ok and "AMALL-FAIL" not in out:
+        chk.fail("correspondence:angleMod-float", "corr:angleMod:float-all:run", "the exhaustive float sweep did not run / a branch was never hit",
+                 {"tail": out[-500:]}, False)
+
+
+def tables_unchanged(chk):
+    """Lemmas/C11Tables.lean (the dispatch `Ord.X => Gen.Euler.<member>_X`) must be exactly what tools/scaffold/c11_tables.py prints:
+    no hand-edited row can pair an order with another order's definition."""
+    rc, out = lib.sh(["python3", os.path.join(lib.VERIF, "tools", "scaffold", "c11_tables.py")], timeout=120)
+    cur = open(os.path.join(lib.LEAN, "ImathVerif", "Lemmas", "C11Tables.lean")).read()
+    rows = re.findall(r"\| \.(\w+) => Gen\.Euler\.\w+?_([XYZ]{3}r?)\b", cur)
+    wrong = [r for r in rows if r[0] != r[1]]
+    ok = rc == 0 and out == cur and not wrong and len(rows) >= 24 * 24
+    chk.oblige("tables:unchanged: Lemmas/C11Tables.lean = output of tools/scaffold/c11_tables.py; every one of its %d dispatch rows names the "
+               "definition of its own order" % len(rows), "audit", ok, None if ok else {"rows_with_wrong_order": wrong[:5], "generator_rc": rc})
+    if not ok:
+        chk.fail("tables:unchanged", "tables:c11", "the per-order dispatch tables differ from their generator (or a row names another order's definition)",
+                 {"rows_with_wrong_order": wrong[:5]}, False)
+
+
 def run(chk):
     chk.trusted = ["Lean 4.33 kernel; axioms propext/Classical.choice/Quot.sound at most",
                    "Mathlib: Matrix.mul/det/transpose, Real.sin/cos/sqrt, Complex.arg, Int.floor",
@@ -189,17 +292,27 @@ def run(chk):
     chk.assumptions = [
         "sin/cos/sqrt/atan2 are parameters of the theorems with explicit hypotheses (each shown to hold for the real functions)",
         "rounding is NOT proved: measured (builders vs spec, round trips, single-precision claims)",
-        "extract(toMatrix a) = a (hence the round trip, also via 4x4 and quaternion) is proved over R for all 24 orders on the OPEN principal "
-        "range only; gimbal lock and its neighbourhoods, angles exactly +-pi, surjectivity onto all rotation matrices (needed by the "
-        "re-ordering constructor), 'within pi of target' on floats: measured",
+        "toMatrix33(extract M) = M is PROVED for every rotation matrix M and all 24 orders, gimbal lock included (Props/C11Round.lean: any "
+        "ordered field, sqrt/sin/cos/atan2 with SqrtOK/TrigSpec, nothing asked of atan2(0,0)); hence surjectivity and that the re-ordering "
+        "constructor preserves the rotation (extracted pairs: XYZ -> each order, each order -> ZYXr). That the ANGLES are reproduced "
+        "(extract(toMatrix a) = a) is proved on the OPEN principal box only (it is false outside). In floating point the 1e-k "
+        "neighbourhoods of gimbal lock are measured",
+        "'within pi of the target': theorems for ANY bound on |angleMod| (makeNear_within ...); the bound that holds for the real float-returning "
+        "angleMod is float(M_PI) > M_PI: exhaustive over all finite float arguments for T = float (thorough tier; every 61st in the quick tier), "
+        "sampled for T = double",
+        "makeNear with a target of another order: extracted for targets of order XYZ and ZYXr x all 24 orders of *this (the branch is order-agnostic)",
+        "extractEulerXYZ/ZYX/extractEuler: identified with the member extract on the ROW-NORMALISED matrix for every input, scale invariance "
+        "proved for positive per-row factors; negative / zero factors are outside the property",
         "nearestRotation adds the double M_PI, not pi: the rotation-preservation theorems assume sin/cos have half period M_PI "
         "(|M_PI - pi| = 1.2e-16 is part of the measured residue)",
         "casting an arbitrary 16-bit pattern to the unscoped enum Euler<T>::Order (order correspondence) relies on g++ treating the enum as int",
     ]
     chk.rule = ("theorems: all 24 orders x all angle triples / matrices over any field. correspondence: all 2^16 order bit patterns (exhaustive); "
-                "angleMod on k*pi, k*2pi +- 0..8 ulps, graded magnitudes, random periods (double and float). residue: 24 orders x angle triples "
+                "angleMod on k*pi, k*2pi +- 0..8 ulps, graded magnitudes, random periods (double and float) vs the Lean model; T = float additionally on "
+                "every 61st / all 2^32 bit patterns (C++ side, exact range and congruence). residue: 24 orders x angle triples "
                 "over +-3 periods, middle angle exactly at and within 1e-1..1e-15 of gimbal lock (+-pi/2; 0 or pi for repeated axes), targets near / "
-                "far / near the flipped triple for makeNear; float and double")
+                "far / near the flipped triple for makeNear, target also given in a random other order; extract fed matrices not built by toMatrix33 "
+                "(unit quaternions, 24 signed-permutation rotations, products of two builders of different orders, setAxisAngle); float and double")
     enum_translator(chk)
     bins = troute.build_extractors(chk, [dict(name="sym_leaf", source="sym/sym_leaf.cpp"),
                                          dict(name="sym_c11", source="sym/sym_c11.cpp"),
@@ -215,7 +328,8 @@ def run(chk):
         # entries without scalar/aggregate inputs (angleOrder_*, angleMapping_*, order_*: integer constants with an unresolvable implicit
         # element type in a bare #eval) are validated by the `real_*_eq_model` theorems instead
         index_tv = [d for d in index if d.get("params")]
-        troute.lean_tv(chk, bins["sym_c11"], "c11", index_tv, n=4 if chk.thorough else 1, idx_deps=[LEAF_IDX])
+        troute.lean_tv(chk, bins["sym_c11"], "c11", index_tv, n=4 if chk.thorough else 1, idx_deps=[LEAF_IDX], param_stubs={"angleMod": ANGLEMOD_STUB})
+        tables_unchanged(chk)
 
         def search(name):
             if not res:
@@ -230,6 +344,7 @@ def run(chk):
                         return d
             return None
         chk.check_theorems("ImathVerif.Props.C11", required=REQUIRED, search=search)
+        chk.check_theorems("ImathVerif.Props.C11Round", required=REQUIRED_ROUND, search=search)
         for d in index[:3]:
             chk.sample({"entry": d["name"], "paths": d.get("paths")})
         chk.extra["per_order_entries"] = sum(1 for d in index if re.search(r"_[XYZ]{3}r?$", d["name"]))
@@ -244,6 +359,9 @@ def run(chk):
     elif bins.get("c11_corr"):
         order_correspondence(chk, bins["c11_corr"])
         anglemod_correspondence(chk, bins["c11_corr"], 60000 if chk.thorough else 6000)
+    if bins.get("c11_corr"):
+        anglemod_float_all(chk, bins["c11_corr"])
 
     if chk.thorough:
         chk.leanchecker("ImathVerif.Props.C11")
+        chk.leanchecker("ImathVerif.Props.C11Round")
